@@ -46,6 +46,7 @@ class Contract:
     # scope restrictions: assumed at entry of the verified body, NOT required of callers (reported as an unchecked
     # assumption): paths outside the property's domain, e.g. "not self.console.is_jupyter"
     scope: List[str] = field(default_factory=list)
+    lemmas: List[str] = field(default_factory=list)  # optional lemma schemas to instantiate ("psum_nonpos")
     hints: List[str] = field(default_factory=list)  # extra facts proved then assumed before `ensures`
     self_sort: Optional[str] = None
     cover: bool = True  # vacuity guard: at least one normal return path must be satisfiable
